@@ -466,3 +466,243 @@ def replay_stream(extra, path, variant, index=None):
         return None
     finally:
         real.close()
+
+
+# ----------------------------------------------------------------------------- _StreamBuffer
+
+class BufReal:
+    """The real tornado.iostream._StreamBuffer behind the StreamBuffer.tla action interface."""
+
+    def __init__(self, cfg, variant=0):
+        from tornado.iostream import _StreamBuffer
+        self.b = _StreamBuffer()
+        self.b._large_buf_threshold = cfg.get("thr", 2048)     # instance attribute: small pieces reach every path
+        self.variant = variant
+        self.last = []
+        self.napp = 0
+
+    def step(self, act, args):
+        self.last = []
+        if act == "append":
+            data = bytes(args[0])
+            k = (self.napp + self.variant) % 3
+            self.napp += 1
+            if k == 1:
+                data = memoryview(bytearray(data))
+            elif k == 2:
+                data = bytearray(data)
+            self.b.append(data)
+        elif act == "peek":
+            v = self.b.peek(args[0])
+            self.last = list(bytes(v))
+        elif act == "advance":
+            self.b.advance(args[0])
+        else:
+            raise ValueError(act)
+        return {"len": len(self.b), "peek": self.last}
+
+
+def replay_buf(extra, path, variant, index=None):
+    real = BufReal(extra["cfg"], variant)
+    for i, s in enumerate(path):
+        try:
+            obs = canon(real.step(s["act"], s["args"]))
+        except Exception as e:
+            obs = {"len": -1, "peek": [], "raised": type(e).__name__}
+        if obs != s["exp"]:
+            if index is not None and index.allowed(extra, path, i, obs):
+                return None
+            return {"step": i, "act": s["act"], "args": s["args"], "exp": s["exp"], "obs": obs, "variant": variant,
+                    "sig": {"act": s["act"], "module": "StreamBuffer", "len_differs": obs["len"] != s["exp"]["len"],
+                            "peek_differs": obs["peek"] != s["exp"]["peek"], "raised": obs.get("raised", "none")}}
+    return None
+
+
+# ----------------------------------------------------------------------------- TCPClient / _Connector
+
+class _SocketModuleShim:
+    """Stands in for the `socket` module inside tornado.tcpclient: socket.socket(af) is scripted
+    (returns a FakeConnSocket or raises), everything else is the real module."""
+
+    def __init__(self, owner):
+        self._owner = owner
+
+    def __getattr__(self, name):
+        return getattr(_socket, name)
+
+    def socket(self, af, *a, **kw):
+        return self._owner._make_socket(af)
+
+
+class _CountingSocket(FakeConnSocket):
+    def __init__(self, owner, idx, family):
+        super().__init__(family=family)
+        self.owner = owner
+        self.idx = idx
+        self.closed_calls = 0
+
+    def close(self):
+        self.closed_calls += 1
+
+
+class ConnectorReal:
+    """The real TCPClient.connect -> _Connector -> _create_stream -> IOStream.connect over scripted
+    sockets, behind the Connector.tla action interface.  Projection: result of connect() and the
+    state of every socket ("none" | "connecting" | "connected" | "closed")."""
+
+    HE = 0.3
+    CT = {1: 0.1, 2: 1.0}
+
+    def __init__(self, cfg):
+        import asyncio
+        import tornado.tcpclient as tc
+        self.asyncio = asyncio
+        self.tc = tc
+        self.cfg = cfg
+        self.n = len(cfg["fam"])
+        self.env = Env()
+        self.socks = {}            # address index -> _CountingSocket
+        self.streams = {}          # address index -> stream
+        self.current = None
+        self.fut = None
+        self.t0 = None
+        self.addrs = []
+        for i, f in enumerate(cfg["fam"], 1):
+            if f == 4:
+                self.addrs.append((_socket.AF_INET, ("10.0.0.%d" % i, 80)))
+            else:
+                self.addrs.append((_socket.AF_INET6, ("fd00::%d" % i, 80, 0, 0)))
+        self._saved = (tc.socket, tc.IOStream)
+        tc.socket = _SocketModuleShim(self)
+        tc.IOStream = self._make_stream
+        owner = self
+
+        class Resolver:
+            async def resolve(self, host, port, family=_socket.AF_UNSPEC):
+                return list(owner.addrs)
+
+            def close(self):
+                pass
+        self.client = tc.TCPClient(resolver=Resolver())
+        real_create = self.client._create_stream
+
+        def create(max_buffer_size, af, addr, **kw):
+            # only notes which address the attempt is for; the real _create_stream does the work
+            self.current = [a for _, a in self.addrs].index(addr) + 1
+            return real_create(max_buffer_size, af, addr, **kw)
+        self.client._create_stream = create
+
+    def _mode(self, idx):
+        return self.cfg["mode"][idx - 1]
+
+    def _make_socket(self, af):
+        idx = self.current
+        if self._mode(idx) == "sockerr":
+            raise OSError(errno.EAFNOSUPPORT, "Address family not supported by protocol")
+        s = _CountingSocket(self, idx, af)
+        if self._mode(idx) == "sync":
+            s.sync_error = ConnectionRefusedError(errno.ECONNREFUSED, "refused")
+        self.socks[idx] = s
+        return s
+
+    def _make_stream(self, sock, *a, **kw):
+        if self._mode(sock.idx) == "streamerr":
+            raise OSError(errno.EBADF, "Bad file descriptor")
+        st = _conn_stream_class()(self.env, sock, **kw)
+        self.streams[sock.idx] = st
+        return st
+
+    def proj(self):
+        f = self.fut
+        cls = None
+        if f is None or not f.done():
+            res = ["pending"]
+        elif f.cancelled():
+            res = ["cancelled"]
+        elif f.exception() is not None:
+            cls = type(f.exception()).__name__
+            res = ["exc", "TimeoutError" if cls == "TimeoutError" else "error"]
+        else:
+            st = f.result()
+            idx = [i for i, s in self.streams.items() if s is st]
+            res = ["ok", idx[0] if idx else 0]
+        sock = []
+        for i in range(1, self.n + 1):
+            s = self.socks.get(i)
+            st = self.streams.get(i)
+            if s is None:
+                sock.append("none")
+            elif s.closed_calls > 0:
+                sock.append("closed")
+            elif st is not None and st._connect_future is None and not st._connecting:
+                sock.append("connected")
+            else:
+                sock.append("connecting")
+        return {"res": res, "sock": sock}, cls
+
+    def _handler(self, idx):
+        st = self.streams[idx]
+        r = st._registry.get(st._fd)
+        return (r[0], st._fd) if r else None
+
+    def _complete(self, idx, outcome):
+        self.socks[idx].so_error = 0 if outcome == "ok" else errno.ECONNREFUSED
+        h = self._handler(idx)
+        if h:
+            try:
+                h[0](h[1], WRITE)
+            except Exception:
+                pass
+
+    def step(self, act, args):
+        if act == "start":
+            kw = {}
+            if self.cfg["ct"]:
+                kw["timeout"] = self.CT[self.cfg["ct"]]
+            self.t0 = self.env.now
+            self.fut = self.asyncio.ensure_future(self.client.connect("example.invalid", 80, **kw), loop=self.env.loop)
+        elif act == "succeed":
+            self._complete(args[0], "ok")
+        elif act == "fail":
+            self._complete(args[0], "fail")
+        elif act == "pair":
+            self._complete(args[0], args[1])
+            self._complete(args[2], args[3])
+        elif act == "he":
+            self.env.advance_to(self.t0 + self.HE)
+        elif act == "ct":
+            self.env.advance_to(self.t0 + self.CT[self.cfg["ct"]])
+        else:
+            raise ValueError(act)
+        self.env.settle()
+        return self.proj()
+
+    def close(self):
+        self.tc.socket, self.tc.IOStream = self._saved
+        if self.fut is not None and not self.fut.done():
+            self.fut.cancel()
+        elif self.fut is not None and not self.fut.cancelled():
+            self.fut.exception()
+        self.env.close()
+
+
+def replay_conn(extra, path, variant=None, index=None):
+    cfg = extra["cfg"]
+    real = ConnectorReal(cfg)
+    try:
+        for i, s in enumerate(path):
+            obs, cls = real.step(s["act"], s["args"])
+            obs = canon(obs)
+            if obs != s["exp"]:
+                if index is not None and index.allowed(extra, path, i, obs):
+                    return None
+                modes = sorted(set(cfg["mode"]))
+                return {"step": i, "act": s["act"], "args": s["args"], "exp": s["exp"], "obs": obs,
+                        "sig": {"act": s["act"], "modes": modes, "exp_res": s["exp"]["res"][:2] if s["exp"]["res"][0] != "ok" else ["ok"],
+                                "obs_res": obs["res"][:2] if obs["res"][0] != "ok" else ["ok"], "obs_class": cls or "none",
+                                "sock_differs": obs["sock"] != s["exp"]["sock"],
+                                "leak": any(o in ("connecting", "connected") and e in ("closed", "none")
+                                            for o, e in zip(obs["sock"], s["exp"]["sock"]))}}
+        return None
+    finally:
+        real.close()
